@@ -455,7 +455,7 @@ def ref_rule(path, cond, doc):
 # (an independent table, not a call of the functions under test).
 CAST_TABLE = {
     "bool": {"true": True, "True": True, "TRUE": True, "false": False, "False": False, "fAlSe": False},
-    "int": {"3": 3, "-2": -2, " 7 ": 7, "0": 0, "1": 1, "+5": 5, "007": 7},
+    "int": {"3": 3, "-2": -2, " 7 ": 7, "0": 0, "1": 1, "+5": 5, "007": 7, "3\n": 3},
 }
 
 
